@@ -3,6 +3,7 @@ package main
 // net parsing/printing, sort.Slice, protobuf runtime.
 
 import (
+	"encoding/hex"
 	"fmt"
 	"go/types"
 	"net"
@@ -42,7 +43,8 @@ func (w *World) ipString(fr *frame, bs []*Term) Str {
 		return Str{s: net.IP(cb).String()}
 	}
 	if len(bs) != 4 && len(bs) != 16 {
-		return Str{opq: true}
+		// net.IP.String of a wrong-length address: "?" followed by the hex digits
+		return Str{tok: &StrTok{kind: "badip", ip: bs}}
 	}
 	return Str{tok: &StrTok{kind: "ip", ip: w.to16(bs)}}
 }
@@ -68,6 +70,38 @@ func (w *World) tokEq(x, y Str) *Term {
 			}
 		}
 		panic(pathEnd{"unsupported", "comparison of a structured host string with a concrete string"})
+	}
+	if (x.tok != nil && x.tok.kind == "badip") || (y.tok != nil && y.tok.kind == "badip") {
+		t, o := x, y
+		if t.tok == nil || t.tok.kind != "badip" {
+			t, o = y, x
+		}
+		var ob []*Term
+		if o.tok != nil {
+			if o.tok.kind != "badip" {
+				return w.tt.F // starts with '?': no address, CIDR or host print does
+			}
+			ob = o.tok.ip
+		} else if cs, ok := o.Concrete(); ok {
+			if len(cs) != 1+2*len(t.tok.ip) || cs[0] != '?' {
+				return w.tt.F
+			}
+			raw, err := hex.DecodeString(cs[1:])
+			if err != nil || strings.ToLower(cs[1:]) != cs[1:] {
+				return w.tt.F
+			}
+			ob = bytesToTerms(w, raw)
+		} else {
+			panic(pathEnd{"unsupported", "comparison of a wrong-length address print with a symbolic string"})
+		}
+		if len(ob) != len(t.tok.ip) {
+			return w.tt.F
+		}
+		conj := make([]*Term, len(ob))
+		for i := range ob {
+			conj[i] = w.tt.Eq(ob[i], t.tok.ip[i])
+		}
+		return w.tt.And(conj...)
 	}
 	// printed CIDRs: net.IP.String is injective on the canonical 16-byte form, so two
 	// prints are equal iff the addresses (To16) and the prefix lengths are
@@ -172,6 +206,9 @@ func init() {
 		s := args[0].(Str)
 		if s.tok != nil && s.tok.kind == "ip" {
 			return w.byteSlice(s.tok.ip)
+		}
+		if s.tok != nil && (s.tok.kind == "badip" || s.tok.kind == "cidr") {
+			return []Value(nil) // "?hex" and "addr/len" are not address literals
 		}
 		cs := w.concStr(fr, s, "net.ParseIP")
 		ip := net.ParseIP(cs)
@@ -476,4 +513,81 @@ func parseTomlStringList(src, key string) []string {
 		}
 	}
 	return out
+}
+
+// ---- (*net.IPNet).Contains as ONE boolean term (a pure callee summarised: the
+// real code branches per byte, which multiplies paths for symbolic addresses) ----
+
+func (w *World) ip4View(ip []*Term) (*Term, []*Term) {
+	switch len(ip) {
+	case 4:
+		return w.tt.T, ip
+	case 16:
+		conj := []*Term{}
+		for i := 0; i < 10; i++ {
+			conj = append(conj, w.tt.Eq(ip[i], w.tt.BV(8, 0)))
+		}
+		conj = append(conj, w.tt.Eq(ip[10], w.tt.BV(8, 0xff)), w.tt.Eq(ip[11], w.tt.BV(8, 0xff)))
+		return w.tt.And(conj...), ip[12:16]
+	}
+	return w.tt.F, nil
+}
+
+func (w *World) ipnetContains(nip, mask, ip []*Term) *Term {
+	match := func(nn, m, x []*Term) *Term {
+		if nn == nil || m == nil {
+			// invalid network (networkNumberAndMask returned nil, nil): the length test
+			// compares with 0 and the loop is empty
+			return w.tt.Bool(len(x) == 0)
+		}
+		if len(x) != len(nn) {
+			return w.tt.F
+		}
+		conj := make([]*Term, len(nn))
+		for i := range nn {
+			conj[i] = w.tt.Eq(w.tt.Bin(OpAnd, nn[i], m[i]), w.tt.Bin(OpAnd, x[i], m[i]))
+		}
+		return w.tt.And(conj...)
+	}
+	nIs4, n4 := w.ip4View(nip)
+	// networkNumberAndMask when the network address has a 4-byte form
+	var m4 []*Term
+	switch len(mask) {
+	case 4:
+		m4 = mask
+	case 16:
+		m4 = mask[12:]
+	default:
+		n4 = nil
+	}
+	// ... and when it has not (To4 nil): only a 16-byte address with a 16-byte mask is valid
+	var n16, m16 []*Term
+	if len(nip) == 16 && len(mask) == 16 {
+		n16, m16 = nip, mask
+	}
+	xIs4, x4 := w.ip4View(ip)
+	with := func(nn, m []*Term) *Term {
+		if xIs4 == w.tt.F {
+			return match(nn, m, ip)
+		}
+		return w.tt.Ite(xIs4, match(nn, m, x4), match(nn, m, ip))
+	}
+	if nIs4 == w.tt.T {
+		return with(n4, m4)
+	}
+	if nIs4 == w.tt.F {
+		return with(n16, m16)
+	}
+	return w.tt.Ite(nIs4, with(n4, m4), with(n16, m16))
+}
+
+func init() {
+	reg("(*net.IPNet).Contains", func(w *World, t *Thread, fr *frame, fn *ssa.Function, args []Value) Value {
+		np := args[0].(*Value)
+		if np == nil {
+			w.rtPanic(fr, "invalid memory address or nil pointer dereference")
+		}
+		st := (*np).(Struct)
+		return w.ipnetContains(w.bytesOf(st[0]), w.bytesOf(st[1]), w.bytesOf(args[1]))
+	})
 }
